@@ -13,10 +13,13 @@ import (
 )
 
 // lookupCriteria is the frozen table function ↦ (criterion field(s) of the element, parameter).
-var lookupCriteria = map[string][]struct{ field, param string }{
-	"sbom.(*NodeList).GetNodeByID":    {{"Id", "id"}},
-	"sbom.(*NodeList).GetNodesByName": {{"Name", "name"}},
-	"sbom.(*NodeList).GetEdgeByType":  {{"From", "fromElement"}, {"Type", "t"}},
+var lookupCriteria = map[string][]struct {
+	field string
+	param int // position of the parameter the field is compared with
+}{
+	"sbom.(*NodeList).GetNodeByID":    {{"Id", 0}},
+	"sbom.(*NodeList).GetNodesByName": {{"Name", 0}},
+	"sbom.(*NodeList).GetEdgeByType":  {{"From", 0}, {"Type", 1}},
 }
 
 func runC16(c *Ctx) {
@@ -50,10 +53,25 @@ func lookupCriterionRule(c *Ctx, fname string) {
 		if d == nil {
 			continue
 		}
-		params := map[string]types.Object{}
+		var params []types.Object
 		for _, f := range d.fd.Type.Params.List {
 			for _, n := range f.Names {
-				params[n.Name] = d.pkg.TypesInfo.Defs[n]
+				params = append(params, d.pkg.TypesInfo.Defs[n])
+			}
+		}
+		// the functional form: i := slices.IndexFunc(coll, func(e) bool { return <criterion> });
+		// return coll[i] — the criterion is the literal's result expression
+		var funcCrit []ast.Expr
+		for _, cs := range callsIn(d.pkg, d.fd.Body) {
+			if cs.callee.FullName() == "slices.IndexFunc" && len(cs.call.Args) == 2 {
+				if lit, isLit := cs.call.Args[1].(*ast.FuncLit); isLit {
+					ast.Inspect(lit.Body, func(m ast.Node) bool {
+						if rs, isRet := m.(*ast.ReturnStmt); isRet && len(rs.Results) == 1 {
+							funcCrit = append(funcCrit, rs.Results[0])
+						}
+						return true
+					})
+				}
 			}
 		}
 		// the statement that yields the element: return of a non-nil value or append to the result
@@ -91,19 +109,36 @@ func lookupCriterionRule(c *Ctx, fname string) {
 				}
 			}
 		}
-		if len(inLoop) == 0 {
+		if len(inLoop) == 0 && len(funcCrit) == 0 {
 			c.undecided(R, fname+"#yield", c.P.Pos(d.fd.Pos()), "no yielding statement found inside a loop")
 			continue
 		}
 		for _, crit := range crits {
-			po := params[crit.param]
 			construct := fmt.Sprintf("%s#%s", fname, crit.field)
-			if po == nil {
-				// parameter renamed: fall back to position-free matching on any parameter
-				c.undecided(R, construct, c.P.Pos(d.fd.Pos()), "parameter "+crit.param+" not found")
+			if crit.param >= len(params) || params[crit.param] == nil {
+				c.undecided(R, construct, c.P.Pos(d.fd.Pos()), fmt.Sprintf("parameter %d not found", crit.param))
 				continue
 			}
+			po := params[crit.param]
 			okAll := true
+			for _, fc := range funcCrit {
+				found := false
+				for _, cj := range conjuncts(fc) {
+					b, isB := cj.(*ast.BinaryExpr)
+					if !isB || b.Op != token.EQL {
+						continue
+					}
+					for _, pr := range [][2]ast.Expr{{b.X, b.Y}, {b.Y, b.X}} {
+						if objOf(d.pkg, pr[1]) == po {
+							t := normText(types.ExprString(pr[0]))
+							if strings.HasSuffix(t, "."+crit.field) {
+								found = true
+							}
+						}
+					}
+				}
+				okAll = okAll && found
+			}
 			for _, y := range inLoop {
 				found := false
 				chain := enclosing(d.fd.Body, y)
@@ -139,8 +174,14 @@ func lookupCriterionRule(c *Ctx, fname string) {
 				}
 				okAll = okAll && found
 			}
-			c.check(okAll, R, construct, c.P.Pos(inLoop[0].Pos()), "element yielded only when its "+crit.field+" equals "+crit.param,
-				fmt.Sprintf("%s yields an element that is not on the positive side of `element.%s == %s`: the lookup returns nodes that do not satisfy its criterion", fname, crit.field, crit.param))
+			ypos := d.fd.Pos()
+			if len(inLoop) > 0 {
+				ypos = inLoop[0].Pos()
+			} else if len(funcCrit) > 0 {
+				ypos = funcCrit[0].Pos()
+			}
+			c.check(okAll, R, construct, c.P.Pos(ypos), "element yielded only when its "+crit.field+" equals "+po.Name(),
+				fmt.Sprintf("%s yields an element that is not on the positive side of `element.%s == %s`: the lookup returns nodes that do not satisfy its criterion", fname, crit.field, po.Name()))
 		}
 	}
 }
@@ -325,6 +366,10 @@ func rootLookup(c *Ctx) {
 			}
 			o := originOfIndex(d, f.m)
 			if (o.kind == "roots" && o.operand == recv) || (o.kind == "set-of" && strings.HasSuffix(o.of, ".RootElements") && o.operand == recv) {
+				ok = true
+			}
+			// membership tested directly on the receiver's root list: slices.Contains(nl.RootElements, id)
+			if f.m == recv && strings.HasSuffix(normText(f.mexpr), ".RootElements") {
 				ok = true
 			}
 		}
@@ -528,10 +573,24 @@ func hashKeyAgreement(c *Ctx) {
 	const R = "constant-agreement"
 	c.rule(R, "the hash-index key built by indexNodesByHash and the probe key built by GetMatchingNode use the same constant format with the same operand order (algorithm, value)")
 	formats := map[string][]string{}
+	var keyDecls []*declInfo
 	for _, fname := range []string{"sbom.(*NodeList).indexNodesByHash", "sbom.(*NodeList).GetMatchingNode"} {
 		d := c.decl(R, fname)
 		if d == nil {
 			return
+		}
+		keyDecls = append(keyDecls, d)
+	}
+	// pieces split off the matcher probe the index on its behalf
+	for _, d := range c.reachDecls(R, "sbom.(*NodeList).GetMatchingNode") {
+		if d.name != "sbom.(*NodeList).GetMatchingNode" && ownerName(d) == "sbom.(*NodeList).GetMatchingNode" {
+			keyDecls = append(keyDecls, d)
+		}
+	}
+	for _, d := range keyDecls {
+		fname := d.name
+		if ownerName(d) == "sbom.(*NodeList).GetMatchingNode" {
+			fname = "sbom.(*NodeList).GetMatchingNode"
 		}
 		defs := singleDefs(d.pkg, d.fd.Body)
 		// every expression that keys a map[string][]*Node (the hash index), however it is spelled:
@@ -824,6 +883,38 @@ func purlFallbackOnlyWithoutHashMatches(c *Ctx) {
 		}
 		return true
 	})
+	if found == nil {
+		// the collecting half may have been split off: a local bound to the result of an owned
+		// helper whose body holds the HashesMatch-guarded store
+		ast.Inspect(d.fd.Body, func(n ast.Node) bool {
+			as, ok := n.(*ast.AssignStmt)
+			if !ok || len(as.Lhs) != 1 || len(as.Rhs) != 1 {
+				return true
+			}
+			ce, isCall := as.Rhs[0].(*ast.CallExpr)
+			if !isCall {
+				return true
+			}
+			g, _ := typeutil.Callee(d.pkg.TypesInfo, ce).(*types.Func)
+			if g == nil {
+				return true
+			}
+			gfd, gpk := c.P.FuncDecl(objName(g))
+			if gfd == nil || gfd.Body == nil {
+				return true
+			}
+			gd := &declInfo{fd: gfd, pkg: gpk, obj: g, name: objName(g)}
+			if ownerName(gd) != fname {
+				return true
+			}
+			for _, cs := range callsIn(gpk, gfd.Body) {
+				if strings.HasSuffix(objName(cs.callee), ".HashesMatch") {
+					found = objOf(d.pkg, as.Lhs[0])
+				}
+			}
+			return true
+		})
+	}
 	if found == nil {
 		c.undecided(R, fname+"#hash-matches", c.P.Pos(d.fd.Pos()), "the collection of hash matches (a map filled under HashesMatch) was not found")
 		return
